@@ -62,3 +62,48 @@ func ZzC19Mono() {
 	observe()
 	zz.Reach("quiescent")
 }
+
+// ZzC19Overlap: Head() callers that overlap with gossip deliveries and with each other while the
+// subjective head is never recent, so that every call asks the network and a (lagging) trusted peer may
+// answer an in-flight request with a head that has been overtaken in the meantime. Oracle (linearisation):
+// a call never returns less than a call that had completed before it started.
+func ZzC19Overlap() {
+	ctx := context.Background()
+	K := zz.Param("K", 3)
+	G := zz.Param("G", 2)
+	env := zzNewSyncEnv(ctx, K, 1, 0, true)
+	maxDone := uint64(0)
+	call := func() {
+		startMax := maxDone
+		h, err := env.s.Head(ctx)
+		if err == nil && h != nil {
+			zz.Assert(h.ID < zzForeign, "Head() returns a verified header")
+			if h.H < startMax {
+				zz.Reach("decreased")
+			}
+			zz.Assert(h.H >= startMax, "Head() never returns less than a call that had completed before it started")
+			if h.H > maxDone {
+				maxDone = h.H
+			}
+		}
+	}
+	early := false
+	go func() {
+		zz.Gate("caller:start")
+		call() // its network request may stay in flight across the deliveries and the other calls
+		early = true
+	}()
+	for n := 0; n < G; n++ {
+		zz.Gate("main:deliver")
+		h := env.chain[zz.Choice("gossip.pick", K)]
+		if env.deliver(ctx, h) == nil {
+			zz.Reach("announced")
+		}
+	}
+	zz.Gate("main:head")
+	call()
+	zz.Quiesce()
+	zz.Assert(early, "every Head() caller returns")
+	call()
+	zz.Reach("quiescent")
+}
